@@ -125,6 +125,7 @@ pub fn worker(ctx: &mut Ctx) {
             let mut lin = Linter::new(wasm_dialect(dialect_i));
             let mut trace: Vec<serde_json::Value> = vec![json!({"new": dialect_i})];
             let mut imported: Vec<String> = Vec::new();
+            let mut pristine = true;
             let mut rep_in = Report::default();
             for _ in 0..ncalls {
                 rep_in.evaluations += 1;
@@ -242,6 +243,17 @@ pub fn worker(ctx: &mut Ctx) {
                                 rep_in.finding("C16", "import-into-non-empty-list", text.len(), || json!({"text": text, "ignored": target_sig}), || format!("importing an ignore list into a non-empty one changed the result: {:?} vs {:?}", again, restored));
                             }
                             trace.push(json!("export+clear+import ignored lints"));
+                            // ... and in another linter object of the same dialect (what the list is exported for), as long
+                            // as this history has not given its linter words or settings of its own
+                            if pristine {
+                                let mut other = Linter::new(wasm_dialect(dialect_i));
+                                if other.import_ignored_lints(lin.export_ignored_lints()).is_ok() {
+                                    let there: Vec<String> = other.lint(text.clone(), lang).iter().map(lint_sig).collect();
+                                    if there != after {
+                                        rep_in.finding("C16", "export-import-ignored@fresh-linter", text.len(), || json!({"text": text, "ignored": target_sig, "calls": trace.iter().rev().take(8).rev().collect::<Vec<_>>()}), || format!("a fresh linter that imported the exported ignore list returns {:?}; this linter returns {:?}", there, after));
+                                    }
+                                }
+                            }
                             if imp.is_err() || restored != after {
                                 rep_in.finding("C16", "export-import-ignored", text.len(), || json!({"text": text, "ignored": target_sig}), || format!("after export -> clear -> import the result differs: {:?} vs {:?}", restored, after));
                             }
@@ -254,6 +266,7 @@ pub fn worker(ctx: &mut Ctx) {
                             let w = l.get_problem_text();
                             let before: Vec<String> = lints.iter().map(lint_sig).collect();
                             lin.import_words(vec![w.clone()]);
+                            pristine = false;
                             imported.push(w.clone());
                             trace.push(json!({"import_words": [w]}));
                             let after_l = lin.lint(text.clone(), lang);
@@ -282,6 +295,7 @@ pub fn worker(ctx: &mut Ctx) {
                         let k = *r.pick(&["SpellCheck", "SentenceCapitalization", "RepeatedWords", "AnA", "LongSentences", "NoSuchRule"]);
                         let v = r.chance(1, 2);
                         let _ = lin.set_lint_config_from_json(json!({ k: v }).to_string());
+                        pristine = false;
                         trace.push(json!({"set_lint_config_from_json": {k: v}}));
                         if k == "SpellCheck" && !v {
                             let l2 = lin.lint(text.clone(), lang);
